@@ -690,15 +690,16 @@ func ChildVerify(args []string) int {
 // ---------------------------------------------------------------- concurrency (processes and goroutines)
 
 type ConcJob struct {
-	Scratch    string
-	WorkDir    string // holds the keypath file written by the priming process
-	Role       string // "writer" | "reader"
-	Index      int
-	Payloads   []PayloadSpec
-	ImportPath string
-	Iterations int    // writer: stores; reader: minimum loads
-	StopFile   string // reader: stop when this file exists (and the minimum is reached)
-	Out        string
+	Scratch     string
+	WorkDir     string // holds the keypath file written by the priming process
+	Role        string // "writer" | "reader"
+	Index       int
+	Payloads    []PayloadSpec
+	ImportPath  string
+	Iterations  int    // writer: stores; reader: minimum loads
+	StopFile    string // reader: stop when this file exists (and the minimum is reached)
+	SleepMicros int    // reader: pause between loads once the minimum is reached
+	Out         string
 }
 
 type ConcOut struct {
@@ -747,7 +748,12 @@ func ConcWorker(root string, job ConcJob, refs []string, keyPath func() string) 
 			}
 		}
 		if i >= job.Iterations {
-			time.Sleep(500 * time.Microsecond) // keep observing without burning a core per reader
+			// keep observing without burning a core per reader
+			d := time.Duration(job.SleepMicros) * time.Microsecond
+			if d == 0 {
+				d = 500 * time.Microsecond
+			}
+			time.Sleep(d)
 		}
 		fr := job.Payloads[0].Fresh()
 		hit, pan := SafeLoad(bc, fr, job.ImportPath, bt)
@@ -891,7 +897,7 @@ func RaceMain(args []string) int {
 		rw.Add(1)
 		go func(i int) {
 			defer rw.Done()
-			out.Readers[i] = ConcWorker(root, ConcJob{Role: "reader", Index: i, Payloads: job.Payloads, ImportPath: ip, Iterations: job.Iterations, StopFile: stop}, refs, func() string { return kp })
+			out.Readers[i] = ConcWorker(root, ConcJob{Role: "reader", Index: i, Payloads: job.Payloads, ImportPath: ip, Iterations: job.Iterations, StopFile: stop, SleepMicros: 3000}, refs, func() string { return kp })
 		}(i)
 	}
 	for i := 0; i < job.Writers; i++ {
